@@ -415,6 +415,45 @@ def lst(vals):
     return "[" + "; ".join(str(v) for v in vals) + "]"
 
 
+# value of the `deferred` entry of executor_outcomes()["validate_unchanged"] when the source passes
+# `step.has_unusable_dynamic_input()` instead of a literal
+COMPUTED_DEFERRED = "unusable_dynamic_input"
+
+UNUSABLE_DYNAMIC_INPUT_SQL = (
+    "SELECT EXISTS ( SELECT 1 FROM dependency JOIN dynamic_dep ON dynamic_dep.i = dependency.i "
+    "JOIN node ON node.i = dependency.source JOIN file ON file.node = dependency.source "
+    "WHERE dependency.sink = ? AND ( node.detached OR file.state NOT IN ({confirmed}, {built}) ) )")
+
+
+def check_unusable_dynamic_input():
+    """Step.has_unusable_dynamic_input (the repair of D39), fail closed: one query, true iff a dynamic input
+    edge of the step comes from a node that is detached or from a file that is not CONFIRMED / BUILT.
+    Model: Sched.unusable_dyn (states = dyn_available_states)."""
+    import importlib
+    enums = importlib.import_module("stepup.core.enums")
+    fn = find_function(parse_module(f"{CORE}/step.py"), "has_unusable_dynamic_input", "Step")
+    body = [n for n in fn.body if not (isinstance(n, ast.Expr) and isinstance(n.value, ast.Constant))]
+    if len(body) != 2 or not isinstance(body[0], ast.Assign) or \
+            ast.unparse(body[1]) != "return bool(self.db.execute(sql, (self.i,)).fetchone()[0])":
+        raise TranslatorError("Step.has_unusable_dynamic_input: unexpected statements")
+    value = body[0].value
+    if not isinstance(value, ast.JoinedStr):
+        raise TranslatorError("Step.has_unusable_dynamic_input: the query is not an f-string")
+    parts = []
+    for v in value.values:
+        if isinstance(v, ast.Constant):
+            parts.append(v.value)
+        else:
+            m = re.fullmatch(r"FileState\.(\w+)\.value", ast.unparse(v.value))
+            if not m:
+                raise TranslatorError("Step.has_unusable_dynamic_input: unexpected interpolation")
+            parts.append(str(enums.FileState[m.group(1)].value))
+    got = re.sub(r"\s+", " ", "".join(parts)).strip()
+    exp = UNUSABLE_DYNAMIC_INPUT_SQL.format(confirmed=enums.FileState.CONFIRMED.value, built=enums.FileState.BUILT.value)
+    if got != exp:
+        raise TranslatorError(f"Step.has_unusable_dynamic_input: query not recognised: {got!r}")
+
+
 def executor_outcomes() -> dict:
     """How a CHECKING job of the executor that does not complete the step puts it back (executor.py):
     `validate_dynamic_job` when the digest is unchanged (the statement after the last `return`), and
@@ -433,9 +472,14 @@ def executor_outcomes() -> dict:
             raise TranslatorError("executor: step.set_state with a computed state")
         deferred = False
         if len(call.args) == 2:
-            if not (isinstance(call.args[1], ast.Constant) and isinstance(call.args[1].value, bool)):
+            if isinstance(call.args[1], ast.Constant) and isinstance(call.args[1].value, bool):
+                deferred = call.args[1].value
+            elif ast.unparse(call.args[1]) == "step.has_unusable_dynamic_input()":
+                # the repair of D39: the flag is decided in the outcome transaction from the current tables
+                check_unusable_dynamic_input()
+                deferred = COMPUTED_DEFERRED
+            else:
                 raise TranslatorError("executor: step.set_state with a computed deferred flag")
-            deferred = call.args[1].value
         return st.attr, deferred
 
     def db_block_calls(fn, after_last_return):
@@ -656,9 +700,14 @@ def generate():
     vst, vdf = outc["validate_unchanged"]
     o.append("(* executor.validate_dynamic_job, digest unchanged: step.set_state(state, deferred);")
     o.append("   executor._reset_step_to_pending (shape checked): reset_for_rerun, delete_hash, set_state(PENDING) *)")
+    computed = vdf == COMPUTED_DEFERRED
     o.append(f"Definition validate_unchanged_state : N := {SS[vst].value}.")
+    o.append("(* the literal flag; when the source passes step.has_unusable_dynamic_input() (computed in the outcome")
+    o.append("   transaction: detached or not in dyn_available_states; the repair of D39): the value the call has while")
+    o.append("   an input is unusable *)")
     o.append(f"Definition validate_unchanged_deferred : bool := {'true' if vdf else 'false'}.")
-    facts["validate_unchanged"] = {"state": SS[vst].value, "deferred": bool(vdf)}
+    o.append(f"Definition validate_unchanged_computed : bool := {'true' if computed else 'false'}.")
+    facts["validate_unchanged"] = {"state": SS[vst].value, "deferred": bool(vdf), "computed": computed}
     o.append("(* tui._normalize_targets (pinned): a raw target is a directory target iff it ends in os.sep *)")
     o.append("Definition target_dir_marker : N := 47.")
     text = "\n".join(o) + "\n"
